@@ -134,7 +134,7 @@ def single(ctx, binp, case, nconc=3, env=None):
 
 # recorded deviations of the code from the intended design (KNOWN_FINDINGS.json): key, configuration of AnkoSem with that deviation switched on
 # "allowed:" keys are not deviations but the other reading of a point the statements leave open (both readings are accepted, nothing is reported)
-DEVIATIONS = [("dev:TrySwallowsReturn", "MC_AnkoSem_dev.cfg"), ("dev:LhsIndexReevaluated", "MC_AnkoSem_dev2.cfg"), ("allowed:FinallyOnJump", "MC_AnkoSem_opt1.cfg")]
+DEVIATIONS = [("dev:TrySwallowsReturn", "MC_AnkoSem_dev.cfg"), ("dev:LhsIndexReevaluated", "MC_AnkoSem_dev2.cfg"), ("dev:SpreadSurplusDropped", "MC_AnkoSem_dev3.cfg"), ("allowed:FinallyOnJump", "MC_AnkoSem_opt1.cfg")]
 
 
 def dev_applies(key, prog):
@@ -142,6 +142,8 @@ def dev_applies(key, prog):
     js = json.dumps(prog)
     if key == "dev:TrySwallowsReturn":
         return '"k": "try"' in js and '"k": "return"' in js       # a return inside a try
+    if key == "dev:SpreadSurplusDropped":
+        return '"spread": true' in js
     if key == "allowed:FinallyOnJump":
         return '"k": "try"' in js and ('"k": "break"' in js or '"k": "continue"' in js)
     return '"lhs": [{"k": "idx", "e": {"k": "idx"' in js or '{"k": "idx", "e": {"k": "idx"' in js and '"k": "let"' in js    # an index path of two or more steps as a target
